@@ -26,7 +26,7 @@ let out_iset l = out_z (List.concat_map (fun (a, b) -> [a; b]) l)
 let cls_of = function 0 -> CTsd | 1 -> CFrame | _ -> CTensor
 let int_of_cls = function CTsd -> 0 | CFrame -> 1 | CTensor -> 2
 let err_name = function
-  | EIndex -> "Index" | EAssertLen -> "AssertLen" | EAssertDim -> "AssertDim" | ERuntimeDim -> "RuntimeDim"
+  | EAssertLen -> "AssertLen" | EAssertDim -> "AssertDim" | ERuntimeDim -> "RuntimeDim"
   | ERuntimeOrder -> "RuntimeOrder" | EValueSplit -> "ValueSplit" | EValueBroadcast -> "ValueBroadcast" | ENoNap -> "NoNap"
 
 (* operand from 6 args starting at position i *)
@@ -63,6 +63,12 @@ let run op a =
   | "ufunc" ->
       let r = npres_of (g 8) in
       out_out (array_ufunc (ts_of a 2) (List.hd (ints (g 0)) <> 0) (nat_of_int (List.hd (ints (g 1)))) (fun _ -> r))
+  | "ufunc_multi" ->
+      let k = List.hd (ints (g 8)) in
+      let rs = List.init k (fun i -> npres_of (g (9 + i))) in
+      (match array_ufunc_multi (ts_of a 2) (List.hd (ints (g 0)) <> 0) (nat_of_int (List.hd (ints (g 1)))) (fun _ -> rs) with
+       | Some l -> out_list l
+       | None -> "REFUSED")
   | "mixed" ->
       let r = npres_of (g 12) in
       out_out (mixed_ufunc (ts_of a 0) (ts_of a 6) (fun _ _ -> r))
